@@ -1,6 +1,6 @@
 import PhyModel.Proofs.GraphOf
 import PhyModel.Proofs.GraphCreate
-import Batteries.Data.List.Perm
+import Mathlib.Data.List.Perm.Subperm
 /-! The structural `create_root_node` of the store model (`Store.createRootNode`: the new clone is put on
 top of the selected top-level trees, `SF.cons n1 tr.1 tr.2` with `tr = takeRoots cis forest`) is a
 correct abstraction of the primitive-level graph manipulation (`gCreateRootNode`: `add_node`,
